@@ -54,7 +54,8 @@ def _enum_harness(spec: EnumSpec, pname, role, consts=""):
         i, v = en[-1]
         api = "pub const K_%s: Option<%s> = %s::from_repr(%s);\n" % (
             spec.name.upper(), spec.ty(), spec.ty().replace("<", "::<", 1), int_lit(discs[i], R))
-    src = consts + render_enum(spec) + "\n" + variant_index_fn(spec) + "\n" + payload_ok_fn(spec) + "\n"
+    src = consts + render_enum(spec) + "\n"
+    helper = variant_index_fn(spec) + "\n" + payload_ok_fn(spec) + "\n"
     hs = [h]
     if fieldless and en:
         # round trip through the cast for a symbolic variant selector
@@ -67,7 +68,7 @@ def _enum_harness(spec: EnumSpec, pname, role, consts=""):
                           desc="E::from_repr(v as R) == Some(v) for every enabled v",
                           bound={"k": "all enabled variants"}, min_covers=1,
                           functions=["%s::from_repr" % spec.name]))
-    return Program(name=pname, enum_src=src, harnesses=hs, summary=render_enum(spec), role=role, api_src=api, note=spec.note)
+    return Program(name=pname, enum_src=src, helper_src=helper, harnesses=hs, summary=render_enum(spec), role=role, api_src=api, note=spec.note)
 
 
 def U(ident, **kw):
